@@ -131,6 +131,11 @@ def dims(prog, rep):
             continue
         i = recv[2]
         rng_ok = i[2] == "range" and i[3] == (("attr", SELF, "n_dim"),)
+        if i[2] == "enumerate" and fd is not None:
+            # for i, desc in enumerate(<the filled descriptions>): one entry per dimension (their number is checked when they are filled)
+            for lp_ in ast.walk(fn.node):
+                if isinstance(lp_, ast.For) and f"{lp_.lineno}:{lp_.col_offset}" == i[1] and b.term(lp_.iter, lp_) == ("call", G("enumerate"), (fd,), ()):
+                    rng_ok = True
         m = ("sub", ("sub", fd, i), ("const", "method"))
         w = ("sub", ("sub", fd, i), ("const", "weights"))
         ck = ("sub", cond, i)
@@ -174,6 +179,13 @@ def dims(prog, rep):
             seen["cond"] = True
             sp = ("call", ("attr", SELF, "_split_in_intervals"), (data, i, ck), ())
             args = positional("virocon.distributions.ConditionalDistribution.fit") or args
+            # the split call may name its arguments
+            for w_ in walk(args[0]) if args else []:
+                if w_[0] == "call" and w_[1] == ("attr", SELF, "_split_in_intervals") and w_ != sp:
+                    names_sp = [p_ for p_ in prog.func(f"{GHM}._split_in_intervals").positional_params if p_ != "self"]
+                    bsp = bind(w_, names_sp)
+                    if bsp is not None and [bsp.get(n_) for n_ in names_sp] == [data, i, ck] and set(bsp) == set(names_sp):
+                        sp = w_
             ok = args == (IT(sp, 0), IT(sp, 1), IT(sp, 2), m, w) and rng_ok
             rep.check(ok, "C09.dims", f"{q}:conditional", site,
                       "distributions[i].fit(*_split_in_intervals(data, i, conditional_on[i]), method_i, weights_i)",
